@@ -216,6 +216,12 @@ def install(eng):
             return OpaqueColl(items)  # de-duplication of symbolic elements is not modelled: usable for printing only
         return set(items)
 
+    def py_frozenset(v=()):
+        items = eng.iterate(v) if not isinstance(v, (set, frozenset)) else list(v)
+        if any(isinstance(x, Sym) or eng.contains_symbolic(x) for x in items):
+            raise Unsupported("frozenset of symbolic elements")
+        return frozenset(items)
+
     def py_dict(*a, **k):
         if a and isinstance(a[0], SymMap):
             return SymMap(a[0].dom, a[0].val, name=a[0].name + ".copy")
@@ -491,6 +497,7 @@ def install(eng):
             raise Unsupported("ord of symbolic")
         return ord(v)
     B["repr"], B["chr"], B["ord"] = py_repr, py_chr, py_ord
+    B["frozenset"] = py_frozenset
     for ex in ("Exception", "AssertionError", "KeyError", "ValueError", "TypeError",
                "NotImplementedError", "RuntimeError", "AttributeError", "IndexError",
                "ZeroDivisionError", "UnboundLocalError", "NameError", "BaseException",
